@@ -337,6 +337,9 @@ def localsify(case, scheme=0):
     if not re.search(r'\bf[0-4]\b', case.body):
         return None
     names = dict(LOCALS)
+    if scheme == 2:
+        # names that differ by the tail of a binding prefix: if one handler binds `self.x` as `_x` and `other.x` as `_o_x`, then `x` and `o_x` meet
+        names = {'f0': 'x', 'f1': 'o_x', 'f2': 's_x', 'f3': 'd_x', 'f4': 'v_x'}
     if scheme == 1:
         names = {'f0': 'source', 'f1': 'educe__f', 'f2': 'other', 'f3': 'arg', 'f4': 'f'}
         m = re.search(r'method\((?:crate::sup::)?([a-z_0-9]+)\)|method = "([a-z_0-9]+)"', case.body)
